@@ -113,3 +113,29 @@ def do_upgrade(w, sid):
 
 def ws_frames(s):
     return [f[2] for f in s.frames]
+
+
+def keepalive(w, sid, t_end, polls=None):
+    """A healthy polling client until virtual time t_end: it always has a poll outstanding and answers every PING with a PONG at
+    once. Returns False if the session ended meanwhile."""
+    while w.now < t_end:
+        g = poll(w, sid, run=False)
+        if polls is not None:
+            polls.append(g)
+        w.run()
+        while not g.done and w.now < t_end:
+            d = w.next_deadline()
+            if d is None or d > t_end:
+                w.run_until(t_end)
+                break
+            w.run_until(d)
+        if not g.done:
+            return True
+        if g.status != 200:
+            return False
+        pk = decode_body(g.text())
+        if any(t == 1 for t, d in pk):
+            return False
+        if any(t == 2 for t, d in pk):
+            post(w, sid, '3')
+    return True
